@@ -124,6 +124,11 @@ Definition mg_ExitStatus (e : err) : Z :=
 
 (* ---------------------------------------------------------------- the child *)
 
+(* [out] / [errout] are EVERYTHING written to the stream the child was given until that stream is
+   closed by its last holder - late writes of descendants that outlive the child included: with a
+   non-file writer Cmd.Run returns only when the pipe is closed (no WaitDelay is set), with a file
+   the descendant writes to the caller's file directly.  [k] is the exit code of the child itself,
+   whatever its descendants do afterwards. *)
 Inductive child_result :=
 | Started (k : Z) (out errout : string)        (* ran, wrote out / errout, exited with code k *)
 | Signaled (sig : Z) (out errout : string)     (* ran, wrote out / errout, was killed by a signal *)
